@@ -4,6 +4,7 @@ import re
 import hir as H
 import mir as M
 import rulelib as L
+import symrules as SR
 import charpred as CP
 import sym
 
@@ -120,15 +121,19 @@ def run(F, R, tier):
         consts[cn] = H.literals(H.root(b["hir"])) if b and b.get("hir") else None
     r2.site("IotaDID constants %s" % consts)
     r2.require(consts["METHOD"] == ["iota"] and consts["DEFAULT_NETWORK"] == ["iota"] and consts["TAG_BYTES_LEN"] == [32], (ID, "constants"), "METHOD/DEFAULT_NETWORK/TAG_BYTES_LEN are not \"iota\"/\"iota\"/32: %s" % consts)
-    h = F.hir(ID + "::check_method")
-    if r2.anchor(h, ID + "::check_method"):
-        env = H.Env(h)
-        ok = False
-        for cond, when, _ in H.ok_conditions(h):
-            rel = H.relation(cond, env, lambda o: o == {("param", "did", "method")}, lambda o: o == {("def", ID + "::METHOD")}, accessors=DID_ACC)
-            ok = ok or (rel == "Eq" and when is True)
-        r2.site("check_method: did.method() == METHOD → Ok: %s" % ok)
-        r2.require(ok, (ID + "::check_method", "predicate"), "check_method is not `did.method() == \"iota\"`")
+    cm = ID + "::check_method"
+    if r2.anchor(F.hir(cm), cm):
+        tab = SR.Table(F, cm, opaque=r"CoreDID::method$|DID::method$|::method$", rule=r2)
+        rows = set()
+        for q in tab.paths:
+            eqs = [(a, c) for (a, c, _, _) in q.decisions if a[0] == "eq" and ("lit", "iota") in (a[1], a[2])]
+            whole = [c for a, c in eqs if any(x[:1] == ("call",) and x[1].endswith("::method") and SR.derives(x, SR.param("did")) for x in (a[1], a[2]))]
+            rows.add((tuple(whole), "Ok" if SR.is_success(q.ret) else "Err"))
+            if SR.is_success(q.ret):
+                r2.require(whole == [True] and len(q.decisions) == 1, (cm, "predicate"), "check_method is not `did.method() == \"iota\"` (whole-string equality): %s" % q.describe()[:160])
+            else:
+                r2.require(whole == [False], (cm, "predicate"), "check_method rejects for another reason than `did.method() != \"iota\"`: %s" % q.describe()[:160])
+        r2.site("check_method: did.method() == METHOD → Ok: %s" % sorted(rows, key=str))
     h = F.hir(ID + "::check_tag")
     if r2.anchor(h, ID + "::check_tag"):
         env = H.Env(h)
@@ -183,28 +188,33 @@ def run(F, R, tier):
         r2.site("validate_network_name: non-empty ∧ len ≤ MAX_LENGTH(%s) ∧ all lowercase/digit: %s" % (maxlen, okn))
         r2.require(okn and maxlen == [6], (NN + "::validate_network_name", "predicate"), "network names are not restricted to 1..=6 lowercase ASCII alphanumerics")
     # normalize
-    h = F.hir(ID + "::normalize")
-    if r2.anchor(h, ID + "::normalize"):
-        env = H.Env(h)
-        iff = H.find_first(h, lambda n: n.get("k") == "if")
-        ok = False
-        if iff is not None:
-            ds = H.disjuncts(iff["cond"])
-            kinds = set()
-            for d in ds:
-                d = H.strip(d)
-                if d.get("k") == "binary" and d["op"] == "Ne":
-                    oo = H.origins(d["l"], env) | H.origins(d["r"], env)
-                    if ("def", ID + "::DEFAULT_NETWORK") in oo:
-                        kinds.add("network!=default")
-                if d.get("k") == "binary" and d["op"] == "Eq" and {f.rsplit("::", 1)[-1] for f in H.called_fns(d)} >= {"len"}:
-                    kinds.add("no-network-segment")
-            keeps = H.local_name(H.strip(iff["then"]).get("expr") or iff["then"]) == "did"
-            sets = [n for n in H.walk(iff["else"]) if n.get("k") == "mcall" and n["name"] == "set_method_id"] if iff.get("else") else []
-            arg_ok = bool(sets) and all(o[0] == "call" and o[1] == ID + "::denormalized_components" and o[-1] == "1" for o in H.origins(sets[0]["args"][0], env, extra=re.compile(r"to_owned$")))
-            ok = kinds == {"network!=default", "no-network-segment"} and keeps and arg_ok
-            r2.site("normalize: keep unless network == DEFAULT_NETWORK (then method id := tag): %s" % ok, iff["sp"])
-        r2.require(ok, (ID + "::normalize", "shape"), "normalize does not drop exactly the default network segment")
+    nf = ID + "::normalize"
+    if r2.anchor(F.hir(nf), nf):
+        tab = SR.Table(F, nf, opaque=r"CoreDID::set_method_id$|denormalized_components$|::method_id$", rule=r2)
+        ok = bool(tab.paths)
+        n_set = n_keep = 0
+        for q in tab.paths:
+            if isinstance(q.ret, sym.V) and q.ret.name == "Panic":
+                continue   # the `expect` on set_method_id's result: discharged by C05 (RULE C17-R1/R2)
+            sets = [e for e in q.calls(r"CoreDID::set_method_id$")]
+            comps = [e for e in q.calls(r"denormalized_components$")]
+            if not comps:
+                ok = False
+                continue
+            c0 = ("field", comps[0].result.t, "0")
+            c1 = ("field", comps[0].result.t, "1")
+            net_is_default = None
+            for (a, c, _, _) in q.decisions:
+                if a[0] == "eq" and ("lit", "iota") in (a[1], a[2]) and c0 in (a[1], a[2]):
+                    net_is_default = c
+            if sets:
+                n_set += 1
+                ok = ok and net_is_default is True and sym.term(sets[0].args[1]) == c1 and sym.term(sets[0].args[0]) == SR.param("did") and len(sets) == 1
+            else:
+                n_keep += 1
+                ok = ok and sym.term(q.ret) == SR.param("did") and net_is_default is not True
+        r2.site("normalize: keep unless network == DEFAULT_NETWORK (then method id := tag): %s (%d rewriting / %d keeping path(s))" % (ok, n_set, n_keep))
+        r2.require(ok and n_set >= 1 and n_keep >= 1, (nf, "shape"), "normalize does not drop exactly the default network segment (whole-string equality with \"iota\", new method id = the tag component)")
     dfn = ID + "::denormalized_components"
     if r2.anchor(F.hir(dfn), dfn):
         # a pure composition of std string primitives: fold it on the input shapes that distinguish "split at the first ':'" from
